@@ -190,6 +190,25 @@ fn gen_vol(rng: &mut Rng, positive_depth: bool) -> Vol {
             break (n, f);
         }
     };
+    // scale extremes: the planes are lengths in the caller's unit, nothing in the statement depends
+    // on that unit.  A sixth of the volumes have a window (l, r, b, t) far below the element type's
+    // epsilon (a narrow long-lens tile), an eighth are a whole scene in a microscopic or huge unit
+    let (mut l, mut r, mut b, mut t, mut n, mut f) = (l, r, b, t, n, f);
+    match rng.below(24) {
+        0..=3 => {
+            let k = Q::frac(1, 1i64 << *rng.pick(&[30u32, 56, 60]));
+            l = l * k; r = r * k; b = b * k; t = t * k;
+        }
+        4..=5 => {
+            let k = Q::frac(1, 1i64 << *rng.pick(&[30u32, 56, 60]));
+            l = l * k; r = r * k; b = b * k; t = t * k; n = n * k; f = f * k;
+        }
+        6 => {
+            let k = Q::int(1i64 << 30);
+            l = l * k; r = r * k; b = b * k; t = t * k; n = n * k; f = f * k;
+        }
+        _ => {}
+    }
     Vol { l, r, b, t, n, f }
 }
 
@@ -814,8 +833,13 @@ fn float_case<T: Fl, M: FLay<T>>(sub: &mut Sub, cfg: &Config, idx: u64, lay: &st
             return (x, y);
         }
     };
+    // the window in the caller's unit of length: mostly ordinary, sometimes microscopic (a power of
+    // two, so the shape of the volume is unchanged bit for bit): a guard that compares a plane sum or
+    // difference with an absolute epsilon misfires here
+    let ws = 2f64.powi(-*rng.pick(&[0i32, 0, 0, 0, 0, 24, 30, 40]));
     let (l, r) = pair(&mut rng, 10.0);
     let (b, t) = pair(&mut rng, 10.0);
+    let (l, r, b, t) = (l * ws, r * ws, b * ws, t * ws);
     let n = T::of(10f64.powf(rng.f64_in(-2.0, 1.5))).to64();
     let f = T::of(n * (1.1 + 10f64.powf(rng.f64_in(-1.0, 3.0)))).to64();
     // field of view: a third narrow (telescopic, down to 3e-4 rad), the rest ordinary
